@@ -41,7 +41,8 @@ def battery(ctx, name, role, why):
             if 'query' not in a or 'brute_force' not in a:
                 return ctx.mismatch(name, f'permission_query probe {q["kind"]}: {str(a)[:300]}')
             if a['query'] != a['brute_force']:
-                cache['r'] = (f'{q["kind"]} query `{q["policies"]}` for {q.get("principal", "?")} / {q.get("action")} / {q.get("resource", "?")}: the query returns {a["query"]}, enumerating the candidates with the authorizer gives {a["brute_force"]}', dict(q, op='permission_query'))
+                cache['r'] = ((f'action query `{q["policies"]}` for {q["principal"]} / {q["resource"]} with an unknown context answers {a.get("answer")}: ' + '; '.join(a["query"])) if q['kind'] == 'action' else
+                              f'{q["kind"]} query `{q["policies"]}` for {q.get("principal", "?")} / {q.get("action")} / {q.get("resource", "?")}: the query returns {a["query"]}, enumerating the candidates with the authorizer gives {a["brute_force"]}', dict(q, op='permission_query'))
                 break
     if cache['r']:
         return ctx.violation(name, role, f'{why}; natively: {cache["r"][0]}', cache['r'][1])
@@ -58,7 +59,12 @@ QPOLS = ['permit(principal, action, resource);', 'forbid(principal, action, reso
 QUERY_CASES = [dict(kind='resource', policies=p, schema=QSCHEMA, entities=QENTS, principal={'type': 'User', 'id': u}, action={'type': 'Action', 'id': a}, resource_type=rt, context={'n': n})
                for p in QPOLS for u in ('alice', 'bob') for a in ('view',) for rt in ('Doc', 'Folder') for n in (0, 1)] + \
               [dict(kind='principal', policies=p, schema=QSCHEMA, entities=QENTS, resource={'type': 'Doc', 'id': d}, action={'type': 'Action', 'id': a}, principal_type='User', context={'n': n})
-               for p in QPOLS for d in ('d1', 'd2') for a in ('view', 'edit') for n in (0, 1)]
+               for p in QPOLS for d in ('d1', 'd2') for a in ('view', 'edit') for n in (0, 1)] + \
+              [dict(kind='action', policies=p, schema=QSCHEMA, entities=QENTS, principal={'type': 'User', 'id': u}, resource={'type': 'Doc', 'id': d}, action={'type': 'Action', 'id': 'view'},
+                    actions=[{'type': 'Action', 'id': 'view'}, {'type': 'Action', 'id': 'edit'}], contexts=[{'n': 0}, {'n': 1}, {'n': -5}])
+               for p in QPOLS + ['permit(principal, action, resource); forbid(principal, action == Action::"edit", resource) when { context.n > 0 };',
+                                 'permit(principal, action == Action::"view", resource) when { context.n == 0 }; forbid(principal, action, resource) when { context.n < 0 };']
+               for u in ('alice', 'bob') for d in ('d1', 'd2')]
 
 
 def entity_query(ctx, which, n):
